@@ -16,7 +16,8 @@ import ast, sys, os, textwrap
 REPO = os.environ.get("VERIF_REPO", "/repo")
 OUTDIR = os.path.join(os.path.dirname(os.path.abspath(__file__)), "..", "coq", "theories")
 # generated file -> functions (one file per group of properties: bfs / dfs are tied to C02, C03; expand_to_target to C06)
-GROUPS = [("PySrcSd.v", ["expand_bfs", "expand_dfs"]), ("PySrcSdTarget.v", ["expand_to_target"]), ("PySrcSdMin.v", ["expand_minimal_spaces"])]
+GROUPS = [("PySrcSd.v", ["expand_bfs", "expand_dfs"]), ("PySrcSdTarget.v", ["expand_to_target"]), ("PySrcSdMin.v", ["expand_minimal_spaces"]),
+          ("PySrcSdASeeds.v", ["expand_attractor_seeds"])]
 
 class Unsupported(Exception):
     pass
@@ -26,10 +27,12 @@ def fail(node, why):
 
 COQ_TY = {"nat": "nat", "optnat": "(option nat)", "bool": "bool", "natlist": "(list nat)", "optnatlist": "(option (list nat))",
           "natset": "(list nat)", "space": "space", "optspace": "(option space)", "stack": "(list (nat * option (list nat)))",
-          "spacelist": "(list space)", "pnobj": "unit", "unit": "unit"}
+          "spacelist": "(list space)", "pnobj": "unit", "unit": "unit", "optspacelist": "(list (option space))", "retained": "retained",
+          "statelist": "(list state)", "netobj": "unit", "graphobj": "unit", "nfvstape": "(list (list nat))"}
 DFLT = {"nat": "0", "optnat": "(@None nat)", "bool": "false", "natlist": "(@nil nat)", "optnatlist": "(@None (list nat))",
         "natset": "(@nil nat)", "space": "(@nil (option bool))", "optspace": "(@None space)", "stack": "(@nil (nat * option (list nat)))",
-        "spacelist": "(@nil space)", "pnobj": "Datatypes.tt"}
+        "spacelist": "(@nil space)", "pnobj": "Datatypes.tt", "optspacelist": "(@nil (option space))", "retained": "(@nil (nat * bool))",
+        "statelist": "(@nil state)", "netobj": "Datatypes.tt", "graphobj": "Datatypes.tt", "nfvstape": "tape"}
 OPT_OF = {"nat": "optnat", "natlist": "optnatlist", "space": "optspace"}
 
 # function -> file, arguments (after sd), local types, fuel of each `while` in order of appearance
@@ -54,6 +57,13 @@ FUNCS = [
          loopvars={}, fuels=["fuel", "(S (match successors with Some l_ => length l_ | None => 0 end))"],
          nested=[dict(name="make_skip_node", args=[("node_id", "nat"), ("all_minimal_traps", "spacelist")], ret="unit",
                       locs={"skip_edges": "nat", "m_id": "nat"}, loopvars={"m_trap": "space"}, alias=["node", "m_data"], fuels=[])]),
+    dict(name="expand_attractor_seeds", path="biobalm/_sd_algorithms/expand_attractor_seeds.py", min_tape=True, nfvs_tape=True,
+         args=[("size_limit", "optnat")],
+         locs={"root": "nat", "seen": "natset", "stack": "stack", "node": "nat", "successors": "optnatlist", "expanded_children": "natlist",
+               "expanded_motifs": "spacelist", "s": "nat", "successor_space": "space", "successor_bn": "netobj", "successor_nfvs": "natlist",
+               "successor_pn": "pnobj", "successor_graph": "graphobj", "avoid_or_none": "optspacelist", "avoid": "spacelist",
+               "avoid_restricted": "spacelist", "y": "space", "retained_set": "retained", "successor_seeds": "statelist", "tape_": "nfvstape"},
+         loopvars={"x": "space"}, fuels=["fuel", "(S (match successors with Some l_ => length l_ | None => 0 end))"]),
 ]
 
 class Fn:
@@ -63,7 +73,7 @@ class Fn:
         self.locs = spec["locs"]
         self.state = []
         self.fuels = list(spec["fuels"])
-        self.alias = {}; self.alias_n = 0; self.pn_of = {}; self.nested = {}
+        self.alias = {}; self.alias_n = 0; self.pn_of = {}; self.nested = {}; self.obj_of = {}
         self.ret = spec.get("ret", "bool")
 
     # ---------- expressions: (term, may_raise, type); with may_raise the term has type option T ----------
@@ -191,7 +201,7 @@ class Fn:
             return (f"({a[0]}, {b[0]})", False, "stackitem")
         if isinstance(e, ast.List):
             if not e.elts:
-                if want not in ("natlist", "stack", "natset"): fail(e, "empty list of unknown type")
+                if want not in ("natlist", "stack", "natset", "spacelist"): fail(e, "empty list of unknown type")
                 return (DFLT[want], False, want)
             if len(e.elts) != 1: fail(e, "list literal")
             a = self.expr(e.elts[0])
@@ -206,7 +216,7 @@ class Fn:
             if isinstance(f, ast.Name) and f.id == "len" and len(e.args) == 1 and not e.keywords:
                 if self.is_sd(e.args[0]): return ("(size sd_)", False, "nat")
                 a = self.expr(e.args[0])
-                if a[2] in ("stack", "spacelist"): return self.map1(a, lambda x: f"(length {x})", "nat")
+                if a[2] in ("stack", "spacelist", "statelist"): return self.map1(a, lambda x: f"(length {x})", "nat")
                 return self.map1(self.as_list(a, e), lambda x: f"(length {x})", "nat")
             if isinstance(f, ast.Name) and f.id == "set" and not e.keywords:
                 if not e.args: return ("(@nil nat)", False, "natset")
@@ -229,6 +239,40 @@ class Fn:
                 if a[2] != "space" or b[2] != "space": fail(e, "space arguments")
                 if f.id == "intersect": return self.map2(a, b, lambda x, y: f"(intersect {x} {y})", "optspace")
                 return self.map2(a, b, lambda x, y: f"(subspace {x} {y})", "bool")
+            if isinstance(f, ast.Attribute) and self.is_sd(f.value) and f.attr == "node_successors" and len(e.args) == 1 and not e.keywords:
+                a = self.expr(e.args[0])                                        # without compute: KeyError on an unexpanded node
+                if a[2] != "nat" or a[1]: fail(e, "node id")
+                return (f"(if n_exp (get sd_ {a[0]}) then Some (Diagram.successors sd_ {a[0]}) else None)", True, "natlist")
+            if isinstance(f, ast.Attribute) and self.is_sd(f.value) and f.attr == "edge_stable_motif" and len(e.args) == 2 and not e.keywords:
+                a, b = self.expr(e.args[0]), self.expr(e.args[1])
+                if a[2] != "nat" or b[2] != "nat" or a[1] or b[1]: fail(e, "edge ids")
+                return (f"(first_motif sd_ {a[0]} {b[0]})", False, "space")
+            if isinstance(f, ast.Attribute) and self.is_sd(f.value) and f.attr == "node_percolated_network" and len(e.args) == 1 \
+                    and len(e.keywords) == 1 and e.keywords[0].arg == "compute" and isinstance(e.keywords[0].value, ast.Constant) and e.keywords[0].value.value is True:
+                a = self.expr(e.args[0])
+                if a[2] != "nat" or a[1]: fail(e, "node id")
+                self.last_obj_node = a[0]
+                return ("Datatypes.tt", False, "netobj")
+            if isinstance(f, ast.Name) and f.id == "AsynchronousGraph" and len(e.args) == 1 and not e.keywords and isinstance(e.args[0], ast.Name) \
+                    and self.env.get(e.args[0].id) == "netobj" and e.args[0].id in self.obj_of:
+                self.last_obj_node = self.obj_of[e.args[0].id]
+                return ("Datatypes.tt", False, "graphobj")
+            if isinstance(f, ast.Name) and f.id == "make_heuristic_retained_set" and len(e.args) == 3 and not e.keywords:
+                g, nf, av = e.args
+                if not (isinstance(g, ast.Name) and self.env.get(g.id) == "graphobj" and g.id in self.obj_of): fail(e, "graph argument")
+                nf, av = self.expr(nf), self.expr(av)
+                if nf[2] != "natlist" or av[2] != "spacelist" or nf[1] or av[1]: fail(e, "retained-set arguments")
+                return (f"(heuristic_retained N (n_space (get sd_ {self.obj_of[g.id]})) {nf[0]} {av[0]})", False, "retained")
+            if isinstance(f, ast.Name) and f.id == "compute_fixed_point_reduced_STG" and len(e.args) == 2:
+                kw = {k.arg: k.value for k in e.keywords}
+                pn, rs = e.args
+                if set(kw) != {"avoid_subspaces", "solution_limit"} or not (isinstance(kw["solution_limit"], ast.Constant) and kw["solution_limit"].value == 1):
+                    fail(e, "compute_fixed_point_reduced_STG keywords")
+                if not (isinstance(pn, ast.Name) and self.env.get(pn.id) == "pnobj" and pn.id in self.pn_of): fail(e, "petri net argument")
+                rs, av = self.expr(rs), self.expr(kw["avoid_subspaces"])
+                if rs[2] != "retained" or av[2] != "spacelist" or rs[1] or av[1]: fail(e, "reduced-STG arguments")
+                # fixed points of the reduced STG of the node's percolated net (engine contract: Brute.reduced_fixed_b), at most one
+                return (f"(firstn 1 (reduced_fixed_b N (ret_space (nvars N) {rs[0]}) (n_space (get sd_ {self.pn_of[pn.id]})) {av[0]}))", False, "statelist")
             if isinstance(f, ast.Attribute) and self.is_sd(f.value) and f.attr == "node_is_minimal" and len(e.args) == 1 and not e.keywords:
                 a = self.expr(e.args[0])
                 if a[2] != "nat": fail(e, "node id type")
@@ -254,20 +298,43 @@ class Fn:
         if isinstance(e, ast.ListComp) and len(e.generators) == 1 and isinstance(e.generators[0].target, ast.Name) and not e.generators[0].is_async:
             g = e.generators[0]
             it = self.expr(g.iter)
-            if it[2] != "spacelist" or it[1] or len(g.ifs) > 1: fail(e, "comprehension")
+            elem_ty = {"spacelist": "space", "natlist": "nat", "optspacelist": "optspace"}.get(it[2])
+            if elem_ty is None or len(g.ifs) > 1: fail(e, "comprehension")
             v = g.target.id
             saved = self.env.get(v)
-            self.env[v] = "space"
+            self.env[v] = elem_ty
             try:
                 elt = self.expr(e.elt)
                 cond = self.expr(g.ifs[0]) if g.ifs else None
             finally:
                 if saved is None: del self.env[v]
                 else: self.env[v] = saved
-            if elt[2] != "space" or elt[1] or (cond is not None and (cond[2] != "bool" or cond[1])): fail(e, "comprehension body")
-            src = f"(filter (fun {v} => {cond[0]}) {it[0]})" if cond is not None else it[0]
-            if isinstance(e.elt, ast.Name) and e.elt.id == v: return (src, False, "spacelist")
-            return (f"(map (fun {v} => {elt[0]}) {src})", False, "spacelist")
+            if elt[1] or (cond is not None and (cond[2] != "bool" or cond[1])): fail(e, "comprehension body")
+            identity = isinstance(e.elt, ast.Name) and e.elt.id == v
+            # [x for x in l if x is not None] on a list of optional spaces
+            if identity and elem_ty == "optspace" and cond is not None and isinstance(g.ifs[0], ast.Compare) and isinstance(g.ifs[0].ops[0], ast.IsNot) \
+                    and isinstance(g.ifs[0].left, ast.Name) and g.ifs[0].left.id == v:
+                return self.map1(it, lambda l: f"(flat_map (fun o_ => match o_ with Some x_ => [x_] | None => [] end) {l})", "spacelist")
+            if elem_ty == "optspace": fail(e, "comprehension over optional spaces")
+            out_ty = {"space": "spacelist", "nat": "natlist", "optspace": "optspacelist"}.get(elt[2])
+            if out_ty is None: fail(e, "comprehension element type")
+            def build(l):
+                src = f"(filter (fun {v} => {cond[0]}) {l})" if cond is not None else l
+                return src if identity else f"(map (fun {v} => {elt[0]}) {src})"
+            return self.map1(it, build, out_ty)
+        # {var: val for (var, val) in x.items() if var not in sp}: the part of x outside sp
+        if isinstance(e, ast.DictComp) and len(e.generators) == 1:
+            g = e.generators[0]
+            ok = isinstance(g.target, ast.Tuple) and len(g.target.elts) == 2 and all(isinstance(t, ast.Name) for t in g.target.elts) \
+                and isinstance(e.key, ast.Name) and isinstance(e.value, ast.Name) and [e.key.id, e.value.id] == [t.id for t in g.target.elts] \
+                and isinstance(g.iter, ast.Call) and isinstance(g.iter.func, ast.Attribute) and g.iter.func.attr == "items" and not g.iter.args \
+                and isinstance(g.iter.func.value, ast.Name) and len(g.ifs) == 1 and isinstance(g.ifs[0], ast.Compare) and len(g.ifs[0].ops) == 1 \
+                and isinstance(g.ifs[0].ops[0], ast.NotIn) and isinstance(g.ifs[0].left, ast.Name) and g.ifs[0].left.id == e.key.id \
+                and isinstance(g.ifs[0].comparators[0], ast.Name)
+            if not ok: fail(e, "dict comprehension")
+            a, b = self.expr(g.iter.func.value), self.expr(g.ifs[0].comparators[0])
+            if a[2] != "space" or b[2] != "space" or a[1] or b[1]: fail(e, "dict comprehension operands")
+            return (f"(reduce_by {a[0]} {b[0]})", False, "space")
         if isinstance(e, ast.BinOp) and isinstance(e.op, ast.BitOr):
             a, b = self.expr(e.left), self.expr(e.right)
             if a[2] != "space" or b[2] != "space": fail(e, "| on non-dict values")
@@ -404,6 +471,12 @@ class Fn:
                 if not isinstance(s.op, ast.Add) or lty != "nat": fail(s, "augmented assignment")
                 t, r, _ = self.as_nat(self.expr(val), s)
                 return self.guard(f"(omap (fun b_ => {name} + b_) {t})" if r else f"({name} + {t})", r, name, self.block(rest))
+            # X = sd.node_percolated_nfvs(i, compute=True): the next entry of the NFVS tape
+            if self.is_call(val, "node_percolated_nfvs") and self.is_sd(val.func.value) and len(val.args) == 1 and len(val.keywords) == 1 \
+                    and val.keywords[0].arg == "compute" and isinstance(val.keywords[0].value, ast.Constant) and val.keywords[0].value.value is True:
+                if not self.spec.get("nfvs_tape") or lty != "natlist": fail(s, "nfvs call")
+                self.need_state("tape_", s)
+                return f"(let {name} := hd [] tape_ in let tape_ := tl tape_ in {self.block(rest)})"
             # X = sd._ensure_node(p, m)
             if self.is_call(val, "_ensure_node") and self.is_sd(val.func.value) and len(val.args) == 2 and not val.keywords:
                 a, b = self.expr(val.args[0]), self.expr(val.args[1])
@@ -429,6 +502,9 @@ class Fn:
                 store, _ = self.coerce(("l_", False, "natlist"), self.env[lst], s)
                 return f"(match obind {self.lift(l[0], l[1])} l_pop with Some ({name}, l_) => let {lst} := {store} in {self.block(rest)} | None => SBad sd_ end)"
             te = self.expr(val, want=lty)
+            if lty in ("netobj", "graphobj"):
+                if te[2] != lty: fail(s, "opaque object local")
+                self.obj_of[name] = self.last_obj_node
             if lty == "pnobj":
                 if te[2] != "pnobj": fail(s, "percolated net local")
                 self.pn_of[name] = self.last_pn_node
@@ -451,6 +527,10 @@ class Fn:
                 a = self.expr(c.args[0])
                 if a[2] != "nat": fail(s, "set element type")
                 return self.guard(f"(omap (fun a_ => set_add a_ {obj}) {a[0]})" if a[1] else f"(set_add {a[0]} {obj})", a[1], obj, self.block(rest))
+            if meth == "append" and oty == "spacelist" and len(c.args) == 1:
+                a = self.expr(c.args[0])
+                if a[2] != "space" or a[1]: fail(s, "append element type")
+                return self.guard(f"({obj} ++ [{a[0]}])", False, obj, self.block(rest))
             if meth == "append" and oty in ("natlist", "stack") and len(c.args) == 1:
                 a = self.expr(c.args[0])
                 if a[2] != {"natlist": "nat", "stack": "stackitem"}[oty] or a[1]: fail(s, "append element type")
@@ -460,6 +540,15 @@ class Fn:
                 store, _ = self.coerce(("l_", False, "natlist"), oty, s)
                 return f"(match obind {self.lift(l[0], l[1])} l_pop with Some (_, l_) => let {obj} := {store} in {self.block(rest)} | None => SBad sd_ end)"
             fail(s, "method call")
+        if isinstance(s, ast.Expr) and isinstance(s.value, ast.Call) and isinstance(s.value.func, ast.Attribute) and self.is_sd(s.value.func.value) \
+                and s.value.func.attr == "expand_minimal_spaces":
+            c = s.value
+            if not self.spec.get("min_tape") or c.args or [k.arg for k in c.keywords] != ["size_limit"]: fail(s, "expand_minimal_spaces call")
+            a = self.expr(c.keywords[0].value)
+            if a[2] != "optnat" or a[1]: fail(s, "size limit")
+            # the public method with its defaults node_id=None, skip_ignored=False (py_api_expand_minimal_spaces, PySrcSdMin.v); the
+            # result is ignored, an exception propagates
+            return f"(s_after (py_api_expand_minimal_spaces fuel N cfg sd_ min_tape None {a[0]} false) (fun sd_ => {self.block(rest)}))"
         if isinstance(s, ast.Expr) and isinstance(s.value, ast.Call) and isinstance(s.value.func, ast.Name) and s.value.func.id in self.nested:
             c = s.value
             sub = self.nested[c.func.id]
@@ -551,6 +640,8 @@ def assigned_locals(fn_node, locs):
                     if isinstance(x, ast.Name): add(x.id)
         if isinstance(n, ast.Call) and isinstance(n.func, ast.Attribute) and n.func.attr == "pop" and isinstance(n.func.value, ast.Name):
             add(n.func.value.id)
+        if isinstance(n, ast.Call) and isinstance(n.func, ast.Attribute) and n.func.attr == "node_percolated_nfvs":
+            add("tape_")
     return out
 
 def pretty(t):
@@ -594,6 +685,7 @@ def translate_one(spec, node, cname, outer=None):
     if fn.fuels: raise Unsupported(f"{spec['name']}: fewer while loops than declared")
     sig = " ".join(f"({x} : {COQ_TY[t]})" for x, t in spec["args"])
     if spec.get("tape"): sig = "(tape : list space) " + sig
+    if spec.get("min_tape"): sig = "(min_tape : list space) (tape : list (list nat)) " + sig
     init = "".join(f"let {v} := {DFLT[locs[v]]} in " for v in fn.state)
     is_sub = "__" in spec["name"]
     parts.append(f"(* {spec['path']}: def {spec['name'].replace('__', ' / ')}(sd, {', '.join(x for x, _ in spec['args'])}) *)")
@@ -609,12 +701,13 @@ def translate_one(spec, node, cname, outer=None):
     return parts
 
 def translate(fname, names):
-    ext = any(s_.get("tape") for s_ in FUNCS if s_["name"] in names)
+    ext = any(s_.get("tape") or s_.get("min_tape") for s_ in FUNCS if s_["name"] in names)
+    aseeds = any(s_.get("min_tape") for s_ in FUNCS if s_["name"] in names)
     parts = [f"(* {fname} -- GENERATED by tools/py2coq_sd.py from the current sources of /repo/biobalm/_sd_algorithms; do not edit.",
              "   Each definition is the translation of the Python function of the same name (embedding: PyLibSd.v" + (", PyLibSd2.v" if ext else "") + ").",
              "   PySrcSdFacts.v / PySrcSdTargetFacts.v / PySrcSdMinFacts.v prove them equal to the model's strategy functions of Diagram.v. *)",
              "From Coq Require Import List Bool Arith.", "Import ListNotations.",
-             "From BB Require Import BN Diagram PyLib PyLibSd" + (" PyLibCore PyLibSd2" if ext else "") + ".", ""]
+             "From BB Require Import BN" + (" Brute Candidates Blocks" if aseeds else "") + " Diagram PyLib PyLibSd" + (" PyLibCore PyLibSd2" if ext else "") + (" PySrcSdMin" if aseeds else "") + ".", ""]
     for spec in FUNCS:
         name, path = spec["name"], spec["path"]
         if name not in names: continue
@@ -670,10 +763,11 @@ def wrapper(spec):
     if not ok: raise Unsupported(f"SuccessionDiagram.{name}: body is not `return {name}(self, ...)`")
     passed = [x.id for x in body[0].value.args[1:]]
     sig = " ".join(f"({pn} : {COQ_TY[t]})" for pn, (_, t) in zip(params, spec["args"]))
-    tape = "(tape : list space) " if spec.get("tape") else ""
+    tape = "(tape : list space) " if spec.get("tape") else ("(min_tape : list space) (tape : list (list nat)) " if spec.get("min_tape") else "")
+    targs = "tape " if spec.get("tape") else ("min_tape tape " if spec.get("min_tape") else "")
     return [f"(* biobalm/succession_diagram.py: def SuccessionDiagram.{name}(self, {', '.join(params)}) *)",
             f"Definition py_api_{name} (fuel : nat) (N : net) (cfg : config) (sd_ : sd) {tape}{sig} : sd * result :=",
-            f"  py_{name} fuel N cfg sd_ {'tape ' if spec.get('tape') else ''}{' '.join(passed)}.", ""]
+            f"  py_{name} fuel N cfg sd_ {targs}{' '.join(passed)}.", ""]
 
 def main(argv):
     texts, failed = [], []
